@@ -33,7 +33,16 @@ ASSUMPTIONS = [
     "variable, proxy option without a port, IPv6 origins through CONNECT, SOCKS proxies (python_socks absent)",
 ]
 
-ENV_KEYS = ["http_proxy", "https_proxy", "HTTP_PROXY", "HTTPS_PROXY", "no_proxy", "NO_PROXY"]
+# variables that are none of the library's business but are there in real processes (a CGI / WSGI server sets REQUEST_METHOD,
+# shells export ftp_proxy / all_proxy next to http_proxy): they must not change which proxy is used
+BYSTANDERS = {"REQUEST_METHOD": "GET", "SERVER_SOFTWARE": "httpd/1.0", "ftp_proxy": "http://ftp.proxy:2121", "GATEWAY_INTERFACE": "CGI/1.1"}
+ENV_KEYS = ["http_proxy", "https_proxy", "HTTP_PROXY", "HTTPS_PROXY", "no_proxy", "NO_PROXY"] + list(BYSTANDERS)
+
+
+def set_bystanders(on):
+    if on:
+        os.environ.update(BYSTANDERS)
+    return bool(on)
 LABELS = ["a", "b", "ab", "xa", "a-b", "a1"]  # (letters, a hyphen, a digit: all legal in a host label)
 NAMES = [".".join(t) for n in (1, 2, 3) for t in itertools.product(LABELS, repeat=n)]
 BASE = (10 << 24) | (32 << 16)  # 10.32.0.0
@@ -106,6 +115,7 @@ def decide(host, entries, cfg):
     psrc, nsrc, secure = cfg
     for k in ENV_KEYS:
         os.environ.pop(k, None)
+    set_bystanders((len(host) + len(entries) + len(psrc)) % 3 == 0)
     kw = {}
     want_proxy = None
     if psrc in ("opt", "opt-auth"):
@@ -222,6 +232,7 @@ def run_tunnel(case):
     entries = case.get("no_proxy") or []
     for k in ENV_KEYS:
         os.environ.pop(k, None)
+    set_bystanders(case.get("bystanders"))
     kw = {}
     auth = case.get("auth")
     psrc = case["proxy_src"]
@@ -359,6 +370,7 @@ def run_redirect(case):
     entries = case.get("no_proxy") or []
     for k in ENV_KEYS:
         os.environ.pop(k, None)
+    set_bystanders(case.get("bystanders"))
     kw = {}
     psrc = case["proxy_src"]
     if psrc == "opt":
@@ -452,10 +464,13 @@ def tunnels(draw):
         "api": draw(st.sampled_from(["connect", "create_connection", "app"])), "lower": draw(st.booleans()), "envport": draw(st.booleans()),
         "phdr": draw(st.booleans()), "pport_str": draw(st.booleans()), "quote_all": draw(st.booleans()), "reply_cut": draw(st.sampled_from([None, None, 1, 2, 3, 4, 5, 10, 20])),
     }
+    bys = draw(st.integers(0, 2)) == 0
+    if bys:
+        c["bystanders"] = True
     if draw(st.integers(0, 3)) == 0:
         pool = NAMES + IP_HOSTS[:6] + ["example.com", "api.example.com", "badexample.com", "my-app.example.com"]
         chain = draw(st.lists(st.sampled_from(pool), min_size=1, max_size=3))  # (the default redirect limit is 3)
-        return {"host": host, "redirect_to": chain, "secure_chain": [draw(st.booleans()) for _ in chain],
+        return {"host": host, "redirect_to": chain, "bystanders": bys, "secure_chain": [draw(st.booleans()) for _ in chain],
                 "no_proxy": entries, "np_src": c["np_src"], "proxy_src": draw(st.sampled_from(["opt", "env"])),
                 "https_env": draw(st.booleans()), "api": c["api"]}
     return c
